@@ -379,8 +379,59 @@ func checkSharedLoggers(rp roundPlan) {
 // address while it is tracked.
 type poolMon struct {
 	mu     sync.Mutex
-	owners map[*byte]uint64   // slices currently owned (between Get and Put / drop)
-	pooled map[*byte]struct{} // slices that were Put at least once
+	owners map[*byte]uint64  // slices currently owned (between Get and Put / drop)
+	pooled map[*byte]putInfo // slices that were Put at least once: how they were last Put
+}
+
+// putInfo describes the last Put of a backing array: the slice had length n and
+// its first n bytes held the non-zero stamp of owner tag.
+type putInfo struct {
+	n   int
+	tag uint64
+}
+
+func newPoolMon() *poolMon {
+	return &poolMon{owners: map[*byte]uint64{}, pooled: map[*byte]putInfo{}}
+}
+
+// recycledDirty judges a slice that Get has just returned and whose backing
+// array the monitor saw Put before with length info.n: the unchanged Get
+// wipes exactly those info.n bytes, so the new owner must find them zero -
+// directly (b[:cap(b)]) and through Resize(b, n) for n <= info.n. Bytes beyond
+// info.n are not judged. It returns a description of the first stale byte, or
+// "". The slice must not have been written to by its new owner yet.
+func recycledDirty(pool *byteslicepool.ByteSlicePool, b []byte, info putInfo) (string, map[string]any) {
+	l := min2(info.n, cap(b))
+	if l == 0 {
+		return "", nil
+	}
+	describe := func(view []byte, i int, how string) (string, map[string]any) {
+		whose := "not the previous owner's stamp"
+		if view[i] == stampByte(info.tag, i) {
+			whose = "the previous owner's stamp"
+		}
+		return fmt.Sprintf("Get returned a recycled slice (cap %d, last Put with length %d) whose byte %d, read %s, is %#02x (%s) instead of 0: the previous owner's bytes are visible to the next owner",
+				cap(b), info.n, i, how, view[i], whose),
+			map[string]any{"offset": i, "cap": cap(b), "length_at_last_put": info.n, "read_through": how, "previous_owner_tag": fmt.Sprintf("%x", info.tag),
+				"found": fmt.Sprintf("%x", view[i:min2(i+16, len(view))])}
+	}
+	full := b[:cap(b)][:l]
+	for i := range full {
+		if full[i] != 0 {
+			return describe(full, i, "through b[:cap(b)]")
+		}
+	}
+	// what Resize hands to the new owner (n < cap: the same array; n == cap: a copy of b's content)
+	n := l
+	r := pool.Resize(b, n)
+	if len(r) == n {
+		for i := range r {
+			if r[i] != 0 {
+				return describe(r, i, fmt.Sprintf("through Resize(b, %d)", n))
+			}
+		}
+	}
+	return "", nil
 }
 
 type roundPools struct {
@@ -396,7 +447,7 @@ func newRoundPools() *roundPools {
 	p := &roundPools{}
 	for i := range p.shared {
 		p.shared[i] = byteslicepool.NewByteSlicePool(sharedMinCaps[i])
-		p.mon[i] = &poolMon{owners: map[*byte]uint64{}, pooled: map[*byte]struct{}{}}
+		p.mon[i] = newPoolMon()
 	}
 	return p
 }
@@ -418,6 +469,44 @@ func (p *roundPools) finish(rp roundPlan) {
 	}
 }
 
+// sequentialPoolLoop is the one-goroutine version of the recycling check: Get,
+// fill with this iteration's stamp, Put with some length, Get again ... On one
+// P a sync.Pool hands the object just Put straight back (the -race build
+// drops a quarter of the Puts), so most Gets are recycled; only those are
+// judged, and only up to the length of the last Put.
+func sequentialPoolLoop(rp roundPlan) {
+	rng := mon.NewRNG("seqpool", rp.idx)
+	minCap := rng.PickInt(8, 64, 1024)
+	pool, pm := byteslicepool.NewByteSlicePool(minCap), newPoolMon()
+	for i := 0; i < 48; i++ {
+		tag := uint64(rp.idx)<<40 ^ uint64(i)<<8 ^ 0xC3 ^ 1<<62
+		ask := rng.PickInt(0, 16, 100, 1024, 5000)
+		b := pool.Get(ask)
+		rec.Count("pool.sequential.gets", 1)
+		if cap(b) == 0 {
+			continue
+		}
+		if info, ok := pm.pooled[base(b[:1])]; ok && info.n > 0 {
+			rec.Count("pool.sequential.recycled_gets_checked_for_previous_owner_bytes", 1)
+			if msg, extra := recycledDirty(pool, b, info); msg != "" {
+				extra["round"], extra["iteration"], extra["mincap"], extra["phase"] = rp.String(), i, minCap, "sequential loop, one goroutine"
+				rec.Violation(rp.idx, "byteslicepool/recycled-slice-holds-previous-owner-bytes", msg, extra)
+			}
+		}
+		b = b[:cap(b)]
+		stamp(b, tag)
+		if rng.Chance(1, 4) && cap(b) < 16<<10 {
+			// grow now and then, so that arrays of several capacities circulate (Resize
+			// at least doubles the capacity, hence the bound)
+			b = pool.Resize(b, cap(b)+rng.PickInt(1, 100, 3000))
+			stamp(b[:cap(b)], tag)
+		}
+		b = b[:rng.PickInt(1, cap(b)/2+1, cap(b), cap(b))]
+		pm.pooled[base(b[:1])] = putInfo{n: len(b), tag: tag}
+		pool.Put(b)
+	}
+}
+
 type poolOp struct {
 	get    int   // capacity asked of Get
 	sizes  []int // Resize targets
@@ -436,7 +525,7 @@ type poolSpec struct {
 func newPoolSpec(rng *mon.RNG, g int) *poolSpec {
 	s := &poolSpec{pool: rng.Intn(4), ownMin: rng.PickInt(8, 64, 1024), g: g, d: pickDelay(rng)}
 	for i, n := 0, rng.Range(2, 6); i < n; i++ {
-		op := poolOp{get: rng.PickInt(0, 1, 16, 100, 300, 301, 4096, 5000, 20000), putLen: rng.PickInt(0, 500, 1000)}
+		op := poolOp{get: rng.PickInt(0, 1, 16, 100, 300, 301, 4096, 5000, 20000), putLen: rng.PickInt(0, 250, 500, 1000, 1000)}
 		for j, m := 0, rng.Intn(4); j < m; j++ {
 			op.sizes = append(op.sizes, rng.PickInt(0, 1, 15, 16, 17, 299, 300, 301, 1000, 4999, 5000, 5001, 12000, 40000))
 		}
@@ -454,15 +543,25 @@ func (s *poolSpec) sig(ref, got outcome) string {
 
 func base(b []byte) *byte { return unsafe.SliceData(b) }
 
+// stampByte is byte i of owner tag's pattern; it is never zero, so a wiped
+// byte and a stamped byte cannot be confused.
+func stampByte(tag uint64, i int) byte {
+	v := byte(tag>>(8*(uint(i)%8))) ^ byte(i>>3)
+	if v == 0 {
+		v = 0x5A
+	}
+	return v
+}
+
 func stamp(b []byte, tag uint64) {
 	for i := range b {
-		b[i] = byte(tag>>(8*(uint(i)%8))) ^ byte(i>>3)
+		b[i] = stampByte(tag, i)
 	}
 }
 
 func stampOK(b []byte, tag uint64) int {
 	for i := range b {
-		if b[i] != byte(tag>>(8*(uint(i)%8)))^byte(i>>3) {
+		if b[i] != stampByte(tag, i) {
 			return i
 		}
 	}
@@ -479,7 +578,7 @@ func (s *poolSpec) run(c *gctx) outcome {
 		pool, pm, min = c.pools.shared[s.pool], c.pools.mon[s.pool], sharedMinCaps[s.pool]
 	} else {
 		pool, min = byteslicepool.NewByteSlicePool(s.ownMin), s.ownMin
-		pm = &poolMon{owners: map[*byte]uint64{}, pooled: map[*byte]struct{}{}}
+		pm = newPoolMon()
 	}
 	var notes []string
 	fail := func(sig, msg string, extra map[string]any) {
@@ -509,7 +608,7 @@ func (s *poolSpec) run(c *gctx) outcome {
 			continue
 		}
 		pm.mu.Lock()
-		_, recycled := pm.pooled[base(b[:1])]
+		info, recycled := pm.pooled[base(b[:1])]
 		other, owned := pm.owners[base(b[:1])]
 		pm.owners[base(b[:1])] = tag
 		pm.mu.Unlock()
@@ -520,6 +619,16 @@ func (s *poolSpec) run(c *gctx) outcome {
 			c.count("pool.gets_recycled", 1)
 			if bytes.Count(b[:cap(b)], []byte{0}) == cap(b) {
 				c.count("pool.gets_recycled.all_zero", 1)
+			}
+			if info.n > 0 && !owned {
+				c.count("pool.recycled_gets_checked_for_previous_owner_bytes", 1)
+				c.count("pool.recycled_bytes_checked", min2(info.n, cap(b)))
+				if c.conc {
+					c.count("pool.recycled_gets_checked.concurrent_phase", 1)
+				}
+				if msg, extra := recycledDirty(pool, b, info); msg != "" {
+					fail("byteslicepool/recycled-slice-holds-previous-owner-bytes", msg, extra)
+				}
 			}
 		} else {
 			c.count("pool.gets_fresh", 1)
@@ -571,7 +680,7 @@ func (s *poolSpec) run(c *gctx) outcome {
 		check(b, tag, "before Put")
 		pm.mu.Lock()
 		delete(pm.owners, base(b[:1]))
-		pm.pooled[base(b[:1])] = struct{}{}
+		pm.pooled[base(b[:1])] = putInfo{n: len(b), tag: tag}
 		pm.mu.Unlock()
 		pool.Put(b)
 		c.count("pool.puts", 1)
